@@ -193,7 +193,7 @@ def tlc(module, cfg=None, workers=None, simulate=None, seed=None, env=None, time
     if deque:
         jopts.append('-Dtlc2.tool.queue.IStateQueue=StateDeque')
     cmd = ['java'] + jopts + ['-cp', TLA_CP, 'tlc2.TLC', '-metadir', os.path.join(run, 'meta'),
-                               '-config', cfg, '-workers', str(workers or NCPU), '-noGenerateSpecTE']
+                               '-config', cfg, '-workers', str(workers or NCPU), '-noGenerateSpecTE', '-checkpoint', '0']      # (no checkpoints: the depth-first queue used for trace validation cannot write them)
     if simulate:
         cmd += ['-simulate', 'num=%d' % simulate]
         if depth:
